@@ -212,6 +212,18 @@ NIXAPI DataType string_to_data_type(const std::string& dtype);
 NIXAPI bool data_type_is_numeric(DataType dtype);
 
 /**
+ * @brief Can elements of one type be stored into / delivered from elements of the other?
+ *
+ * Numbers convert into each other; text and booleans only into themselves.
+ */
+inline bool data_types_convertible(DataType a, DataType b) {
+    if (data_type_is_numeric(a) && data_type_is_numeric(b)) {
+        return true;
+    }
+    return a == b && (a == DataType::String || a == DataType::Bool);
+}
+
+/**
  * @brief Output operator for data type.
  *
  * Prints a human readable string representation of the
